@@ -5,14 +5,25 @@ LEVEL = "proof"
 RULE = ("in-memory registration + login (`flow`) and login without a record (`flow_nofile`) with every subset of the five "
         "persistence points reloaded through {native bytes, serde-bincode, serde-JSON} (quick: a seeded sample of subsets, always "
         "including none and all), compared with the uninterrupted run on the same tape and with the model (which treats a reload as "
-        "the identity); plus the step-by-step run through native bytes at every hop. distinct = distinct (suite, mask, format, inputs)")
+        "the identity); plus the step-by-step run through native bytes at every hop; also on constant-byte tapes (keys, seeds and nonces at "
+        "the edges of their ranges, e.g. Curve25519 keys whose clamped top byte is exactly 0x40 or 0x7f). distinct = distinct (suite, mask, format, inputs)")
 EXHAUSTIVE = {"quick": False, "thorough": True}
 ASSUMPTIONS = ["serde encodings are not modelled; the crate performs the real bincode/JSON round trip and the model predicts 'no change'"]
 
 
-def reloads(ctx, masks, pw, cred, context, idu, ids, ksf):
+def reloads(ctx, masks, pw, cred, context, idu, ids, ksf, fill=None):
     ctx.nontrivial = True
-    t = flow_tape(ctx)
+    if fill is None:
+        t = flow_tape(ctx)
+    else:
+        # constant-byte tapes: private keys, seeds and nonces at the edges of their ranges (for Curve25519 the clamped
+        # key's top byte is exactly 0x40 for the fills 00/40/80 and 0x7f for 7f/ff; every fill below is a valid scalar in every group)
+        real = ctx.tape
+        ctx.tape = lambda n: bytes([fill]) * n
+        try:
+            t = flow_tape(ctx)
+        finally:
+            ctx.tape = real
     margs = [t, pw, cred, context, idu, ids, ksf]
     base = ctx.call("flow", 0, "none", t, pw, cred, context, idu, ids, ksf, model_args=margs)
     ctx.expect(base.ok, "uninterrupted run succeeds")
@@ -58,4 +69,7 @@ def cases(tier, seed):
             masks = list(range(1, 32)) if tier == "thorough" else sorted(set([31, 1, 2, 4, 8, 16] + rnd.sample(range(1, 32), 4)))
             out.append(dict(script=reloads, suite=s, seed=seed * 10000 + si * 10 + k, mode="raw",
                             params=dict(masks=masks, pw=pw, cred=cred, context=c, idu=a, ids=b, ksf=ksf)))
+        for k, fill in enumerate((0x40, 0x7f, 0x80, 0x01, 0xc7) if tier == "thorough" else (0x40, 0x7f)):
+            out.append(dict(script=reloads, suite=s, seed=seed * 10000 + si * 10 + 5 + k, mode="raw",
+                            params=dict(masks=[31, 1, 8, 16], pw=b"pw", cred=b"alice", context=None, idu=None, ids=None, ksf="~", fill=fill)))
     return out
